@@ -78,6 +78,8 @@ var c03Sigs = map[string][]string{
 }
 
 func runC03(w *World, r *Report) {
+	hrFilterResultGetters(w, r, "R9")
+	hrGetHeader(w, r, "R4") // header constraints of a filter are looked up case-insensitively
 	names := []string{"isFlowValid", "validate", "validateExpr", "isHeadersQualified", "isStatusCodeQualified", "isMethodQualified", "isQueryParamsQualified", "isHeaderValueValid"}
 	fns := map[string]*ssa.Function{}
 	for _, n := range names {
